@@ -252,7 +252,20 @@ def model_view(ans):
     }
 
 
+def tree_has_hooks():
+    import pedal.sandbox.timeout as tmod
+    return hasattr(tmod, "_VERIF_SYNC")
+
+
 def scenario_list(rng, tier):
+    scs = _scenario_list(rng, tier)
+    if not tree_has_hooks():
+        # nothing can be forced on a tree without the guarded hooks: only the unforced runs make sense
+        scs = [sc for sc in scs if sc["position"] == "free"]
+    return scs
+
+
+def _scenario_list(rng, tier):
     scs = all_scenarios(0.25)
     if tier == "thorough":
         scs += [dict(sc, e2="threaded") for sc in all_scenarios(0.2)]
